@@ -32,7 +32,7 @@ CHECKS["C03"] = dict(
         "the query positions are drawn: absorbed (must-pass reseed whose data originates in the component), authenticated by a Merkle decision "
         "against an absorbed root with leaves recomputed from the returned values, or hash-compared with an absorbed commitment; every sub-parser "
         "rejects trailing bytes on all accepting paths. A component without a binding (e.g. a new field, a dropped absorption, a weakened "
-        "exact-length decision) is reported. Hash/Merkle arithmetic is not decided.",
+        "exact-length decision) is reported. Hash/Merkle arithmetic is not decided. Also: TraceQueries::new / ConstraintQueries::new keep the Merkle opening of every Queries::parse whose table they keep (no segment's openings are silently dropped).",
    design_ref="DESIGN.md §3 C03/C05/C02")
 CHECKS["C18"] = dict(
    technique="static analysis: must-pass policy decision per enum arm, canonical comparisons, and normal-form comparison of path-wise symbolic expressions with the documented formula",
@@ -48,7 +48,7 @@ CHECKS["C13"] = dict(
         "advances the cursor, that the &self look-ahead methods cannot consume, that truncating the spill buffer is paired with a store to "
         "the position and buffered bytes are only read positioned by it, and that end-of-data is reported/latched only under an observed "
         "empty fill or reader error. Necessary conditions of `each byte exactly once` and `never reports missing data that is available`; "
-        "value equality with the slice reader for all chunkings is not decided.",
+        "value equality with the slice reader for all chunkings is not decided. REFILL: the end-of-data-reporting refill functions are called only after a decision `buffered < requested` (strict) or `local buffer empty` on every path.",
    design_ref="DESIGN.md §3 C13")
 CHECKS["C19"] = dict(
    technique="static analysis: data-flow dependence shape of every RandomCoin method on all paths, must-pass state updates, canonical comparison of the prover's and verifier's proof-of-work predicates",
@@ -136,7 +136,7 @@ CHECKS["C10"] = dict(
         "position list and single paths attacker-controlled, no overflow / bounds / unwrap / explicit panic site in get_root, into_paths, verify, "
         "verify_batch, deserialize remains unproven when its operands were compared at all; loop-counter indexes whose bound is an inductive "
         "invariant are listed as undecided. (O) into_paths answers in the caller's position order. NOT decided: that honest openings verify, "
-        "from_paths/into_paths round trips, and that a changed leaf or node changes the root (collision resistance of the hash).",
+        "from_paths/into_paths round trips, and that a changed leaf or node changes the root (collision resistance of the hash). (L) one layout convention for `leaves`: readers index through map_indexes, builders through a position map, never the rank in the sorted list.",
    design_ref="DESIGN.md §3 C10")
 CHECKS["C01"] = dict(
    technique="static analysis: abstract interpretation over the honest parameter range (E4), writer/reader token-grammar comparison (E7), must-pass-through on the expanded prover and verifier CFGs (E1), dataflow unit rule (E3)",
